@@ -429,11 +429,10 @@ class EDEOption(Option):  # lgtm[py/missing-equals]
         cls, otype: OptionType | str, parser: "dns.wire.Parser"
     ) -> Option:
         code = EDECode.make(parser.get_uint16())
-        text = parser.get_remaining()
+        # text MAY be null-terminated
+        text = parser.get_remaining().rstrip(b"\x00")
 
         if text:
-            if text[-1] == 0:  # text MAY be null-terminated
-                text = text[:-1]
             btext = text.decode("utf8")
         else:
             btext = None
